@@ -108,6 +108,15 @@ def shaped(rng):
         # corresponds to the real time of the interrupt (neither earlier nor an invented later one)
         *[{"components": [dev("X", cb={"kind": "period", "p": 50 * P}), dev("Y"), dev("Z", {"i": ["Y", "o"]})], "n_ticks": 5, "speed": sp,
            "stims": [{"real": 7 * P + 111, "comp": "Y"}, {"real": 23 * P + 111, "comp": "Z"}, {"real": 61 * P + 111, "comp": "Y"}]} for sp in ([2, 1], [1, 2], [3, 2])],
+        # a component that, while being served a callback at time t, asks to be called back at the SAME time t (a zero-delay
+        # second phase): at top level, inside a system and inside a system inside a system
+        {"components": [dev("step0", cb={"kind": "list", "delays": [P, 0, P, 0, 0, None]}), dev("w0", {"i": ["step0", "o"]})], "n_ticks": 7},
+        {"components": [{"name": "ssys", "kind": "sys", "inputs": {}, "expose": {"y": ["step1", "o"]},
+                         "components": [dev("step1", cb={"kind": "list", "delays": [P, 0, P, 0, 0, None]}), dev("quiet1")]},
+                        dev("w1", {"i": ["ssys", "y"]})], "n_ticks": 7},
+        {"components": [{"name": "osys", "kind": "sys", "inputs": {}, "expose": {}, "components": [
+            {"name": "isys", "kind": "sys", "inputs": {}, "expose": {}, "components": [dev("step2", cb={"kind": "list", "delays": [2 * P, 0, 0, P, 0, None]})]},
+            dev("per2", cb={"kind": "period", "p": 3 * P})]}], "n_ticks": 9},
         {"components": [dev("p", cb={"kind": "period", "p": 10 * P}), dev("q", {"i": ["p", "o"]})], "n_ticks": 7,
          "stims": [{"real": 5 * P + 111, "comp": "p"}, {"real": 23 * P + 111, "comp": "p"}, {"real": 27 * P + 111, "comp": "q"}]},
     ]
